@@ -47,6 +47,9 @@ def gen_case(rng):
     avars = [[f"a{i}", rng.choice(FM)] for i in range(rng.randint(1, 3))]
     hvars = [[f"h{i}", rng.choice(["I", "Q", "q", "i"])]
              for i in range(rng.choice([0, 0, 1, 2]))]
+    # variables of a second ArrayMap object of the same program
+    avars2 = [[f"b{i}", rng.choice(FM)]
+              for i in range(rng.choice([0] * 11 + [1, 2]))]
     # variables of a second HashMap object of the same program
     hvars2 = [[f"g{i}", rng.choice(["I", "Q", "q", "i"])]
               for i in range(rng.choice([0, 1, 2]))] if hvars else []
@@ -66,6 +69,8 @@ def gen_case(rng):
         vs.append(["main", "local", n, f])
     for n, f in avars:
         vs.append(["main", "array", n, f])
+    for n, f in avars2:
+        vs.append(["main", "array2", n, f])
     for n, f in hvars:
         vs.append(["main", "hash", n, f])
     for n, f in hvars2:
@@ -86,7 +91,8 @@ def gen_case(rng):
                           "var"])
         src = rng.randrange(len(vs))
         writes.append([t, how, src, rng.randint(1, 100)])
-    return dict(mlocals=mlocals, avars=avars, hvars=hvars, hvars2=hvars2,
+    return dict(mlocals=mlocals, avars=avars, avars2=avars2, hvars=hvars,
+                hvars2=hvars2,
                 use_dict=use_dict,
                 subcls=subcls, insts=insts, vars=vs, writes=writes,
                 subarr=subarr, prelayout=rng.random() < 0.3,
@@ -120,6 +126,11 @@ def build(case):
         ns[n] = LocalVar(f)
     for n, f in case["avars"]:
         ns[n] = m.globalVar(f)
+    if case.get("avars2"):
+        m2 = ArrayMap()
+        ns["m2"] = m2
+        for n, f in case["avars2"]:
+            ns[n] = m2.globalVar(f)
     if case["hvars"]:
         h = HashMap()
         ns["h"] = h
@@ -417,6 +428,10 @@ def classify(case, b, bad, overlap):
             if any(case["vars"][i][0].startswith("sub") for i in involved):
                 return "subprogram-locals-overlap"
     kinds = sorted({case["vars"][i][1] for i in badvars})
+    if case.get("avars2") and set(kinds) <= {"array", "array2"}:
+        # both ArrayMap objects of one program address their variables
+        # through the same base register (r7)
+        return "two-array-maps-share-the-base-register"
     where = sorted({case["vars"][i][0][:3] for i in badvars})
     hows = sorted({h for _, h, _, _ in case["writes"]})
     return (f"unexplained:value kinds={','.join(kinds)} "
